@@ -57,7 +57,7 @@ func sameGrants(a, b []GView) bool {
 	s := func(x []GView) []string {
 		out := make([]string, len(x))
 		for i, g := range x {
-			out[i] = fmt.Sprint(g)
+			out[i] = fmt.Sprintf("%d|%d|%d|%q|%d", g.Type, g.Start, g.Exp, g.Cmd, g.Prin)
 		}
 		sort.Strings(out)
 		return out
@@ -153,6 +153,15 @@ func (o *Oracle) Judge(op *Op, v View) Verdict {
 		return o.started(op.Sid, oAction{"pf", "", false, op.T})
 	case "IT":
 		if v.B {
+			// target-side intent policy (checkIntent): only an enabled server stores, only for the
+			// session's own user, only unexpired intents of a known grant type with a leaf certificate
+			if op.Sid < len(o.sessions) {
+				s := o.sessions[op.Sid]
+				it := op.Intent
+				if !o.enabled || it.User != s.user || it.Exp < op.Wall || !op.CertOK || it.Type < 1 || it.Type > 4 {
+					return Verdict{false, "C07:intent-stored-against-the-target-policy", fmt.Sprintf("session s%d (user %s) had %s stored (enabled=%v certok=%v now=%d)", op.Sid, s.user, it.desc(), o.enabled, op.CertOK, op.Wall)}
+				}
+			}
 			// the grant is stored whoever asked for it
 			uk := ukey{op.Intent.User, op.Intent.Key}
 			o.pending[uk] = append(o.pending[uk], GView{op.Intent.Type, op.Intent.Start, op.Intent.Exp, op.Intent.Cmd, 0xffffffff})
